@@ -5,6 +5,7 @@ from checks import dns_common as dc
 from checks import C35 as enc
 
 KEY_OPCODE = "C37-nonstandard-opcode-reaches-user-callback"
+KEY_TAIL = "C37-malformed-record-sections-accepted"
 SMALL = [enc.rec(0, "ab.cd", dc.T_A, 60, data=b"\1\2\3\4")]
 BIG = [enc.rec(0, "ab.cd", dc.T_TXT, 60, data=b"t" * 100) for _ in range(9)]     # ~1030 bytes
 
@@ -28,7 +29,15 @@ def judge_one(m, o, recs):
     cb = actual_cb(o)
     resp = [bytes.fromhex(r) for r in o.get("resp", [])]
     if k == "none":
-        return ("user callback invoked for a packet that is not a well-formed query: %s" % cb, None) if cb else None
+        if not cb:
+            return None
+        unrepr = any(x in (0, 46) for qq in res.get("q", []) for l in qq["n"] for x in l)
+        if res.get("why") == "rr" and (cb == expected_cb(res) or (unrepr and len(cb) == 1)):
+            return "user callback invoked although the record sections after the questions are malformed " \
+                   "(RDLENGTH past the end of the packet / announced records missing)", KEY_TAIL
+        if res.get("why") == "opcode":
+            return "non-standard opcode %d (malformed message) reached the user callback %s" % ((m["b"][2] >> 3) & 15, cb), KEY_OPCODE
+        return "user callback invoked for a packet that is not a well-formed query (%s): %s" % (res.get("why"), cb), None
     if k == "notimpl":
         if cb:
             return "non-standard opcode %d reached the user callback %s instead of being answered NOTIMPL" % \
@@ -37,6 +46,8 @@ def judge_one(m, o, recs):
             return "non-standard opcode not answered with NOTIMPL: %s" % [r.hex()[:40] for r in resp], None
         return None
     if k == "open" and not cb:
+        return None
+    if not res["repr"]:      # a label with a NUL or '.' byte cannot be passed through the C-string API: nothing to compare
         return None
     exp = expected_cb(res)
     if cb != exp:
@@ -87,18 +98,17 @@ def run(tier, seed):
         recs = BIG if i % 2 else SMALL
         scen.append({"mode": "server", "tr": "udp", "msgs": [dc.hexb(m["b"])], "reply": {"err": 0, "recs": recs}})
     outs = vkit.run_driver(exe, scen, timeout=900)
-    nrep = 0
     for m, sc, o in zip(msgs, scen, outs):
         chk.count_case([sc["msgs"], len(sc["reply"]["recs"])], nontrivial=len(m["b"]) > 12)
         chk.cov["traces_validated_against_impl"] += 1
         bad = judge_one(m, o, sc["reply"]["recs"])
-        if bad and nrep < 12:
-            nrep += 1
+        if bad and len(chk.violations) < 12:
             chk.violation("C37 udp %s: %s" % (m["tok"], bad[0]), {"scenario": sc, "verdict": m["res"], "actual": o}, key=bad[1])
     for m in msgs[:3]:
         chk.sample({"bytes": dc.hexb(m["b"]), "tokens": m["tok"], "reference_verdict": m["res"]})
     # --- TCP: streams of 1..3 messages with definite verdicts, under every segmentation class
-    definite = [m for m in msgs if m["res"]["k"] in ("call", "none") and len(m["b"]) >= 1]
+    definite = [m for m in msgs if (m["res"]["k"] == "call" and m["res"]["repr"]) or
+                (m["res"]["k"] == "none" and m["res"]["why"] in ("hdr", "q") and len(m["b"]) >= 1)]   # not the known-finding classes
     streams = []
     for _ in range(60 if q else 1500):
         ms = [rng.choice(definite) for _ in range(rng.randint(1, 3))]
